@@ -155,6 +155,27 @@ fn blte_seeds() -> Vec<Seed> {
         seed("made:blte/multi-ext", blte_container(&[chunk_z(&p[..200]), chunk_n(&p[..10])], 0x10)),
         seed("made:blte/multi-enc", blte_container(&[chunk_e(&p[..120], 0, false), chunk_n(&p[..40]), chunk_e(&p[..64], 2, true)], 0x0F)),
     ];
+    // encrypted chunks whose key IS in the store, with 4- and 8-byte IVs, complete and cut at every length around the end
+    // of the chunk header (the decoder reads key name, IV size, IV and cipher byte one after the other)
+    for iv_len in [4usize, 8] {
+        let mut full = vec![b'E', 8];
+        full.extend_from_slice(&HARNESS_KEY_NAME.to_le_bytes());
+        full.push(iv_len as u8);
+        full.extend_from_slice(&[0xa1, 0xb2, 0xc3, 0xd4, 0xe5, 0xf6, 0x07, 0x18][..iv_len]);
+        full.push(0x53);
+        full.extend_from_slice(&p[..24]);
+        out.push(seed(&format!("made:blte/enc-iv{iv_len}-full"), blte_container(&[(full.clone(), 24)], 0x0F)));
+        for cut in 11..=(12 + iv_len + 3) {
+            // `cut` counts the bytes after the mode byte 'E'
+            let chunk = full[..=cut].to_vec();
+            out.push(seed(&format!("made:blte/enc-iv{iv_len}-cut{cut}"), blte_container(&[(chunk.clone(), 1)], 0x0F)));
+            if cut % 2 == 1 {
+                let mut v = b"BLTE\0\0\0\0".to_vec();
+                v.extend_from_slice(&chunk);
+                out.push(seed(&format!("made:blte/single-enc-iv{iv_len}-cut{cut}"), v));
+            }
+        }
+    }
     // real CDN containers (TVFS manifests)
     let mut fx = read_dir_ext("tvfs", &[".blte"]);
     fx.sort_by_key(|s| s.data.len());
@@ -164,12 +185,20 @@ fn blte_seeds() -> Vec<Seed> {
 
 fn espec_seeds() -> Vec<Seed> {
     let mut out = Vec::new();
-    // hand-made ones first: the list is cut to 48 entries below, and the window-bits, BCPack,
+    // hand-made ones first: the list is cut to 66 entries below, and the window-bits, BCPack,
     // GDeflate, multi-block and "count too large" branches are only reachable from these
     for s in ["n", "z", "z:9", "z:{9,15}", "z:{6,mpq}", "z:{6,zlib,15}", "z:{9,lz4hc,8}", "b:{1768=z,66443=n}", "b:{256K*=z}", "b:{16K*4=z,*=n}", "b:{1M*2=z:{9,15},256K*=n}", "e:{237DA26C65073F42,06FC152E,z}", "b:{16K*=z:{6,mpq}}", "c:{1}", "c:{7}", "g:{5}", "g:{12}", "b:{4294967295K*=z}", "b:{1K*4294967295=n,*=z}",
         // rejected on purpose (error branches next to the accepted boundary values above)
         "b:{*=z,*=n}", "b:{1K=n,*4294967296=z}", "b:{18014398509481984K*=z}", "b:{17592186044416M=z,*=n}"] {
         out.push(seed(&format!("made:espec/{s}"), s.as_bytes().to_vec()));
+    }
+    // every wrapper that carries an inner spec, nested to depths around the parser's limit (32) and far beyond it: well
+    // balanced, syntactically valid specs, so that the recursion itself is what gets exercised
+    for (kind, open, close) in [("b", "b:{*=", "}"), ("e", "e:{0123456789abcdef,00000000,", "}"), ("be", "b:{1K*=e:{0123456789ABCDEF,0000000000000000,", "}}")] {
+        for depth in [31usize, 32, 33, 40, 3000, 60_000] {
+            let s = format!("{}n{}", open.repeat(depth), close.repeat(depth));
+            out.push(seed(&format!("made:espec/nest-{kind}-x{depth}"), s.into_bytes()));
+        }
     }
     for f in ["representative_especs.json", "wow_classic_era_especs.json"] {
         let Ok(text) = std::fs::read_to_string(Path::new(FIXTURES).join("espec").join(f)) else { continue };
@@ -183,7 +212,7 @@ fn espec_seeds() -> Vec<Seed> {
     // dedup by content, keep it small
     let mut seen = std::collections::BTreeSet::new();
     out.retain(|s| seen.insert(s.data.clone()));
-    out.truncate(48);
+    out.truncate(66);
     out
 }
 
